@@ -349,6 +349,117 @@ def checkLayout (classes : List ClassInfo) (r : LayoutRow) : Bool :=
   !r.polymorphic &&
   r.numSize == (match r.fm with | .f32 => 4 | .f64 => 8 | .f80 => 16)
 
+/-! ### Conversion entry points (C02) -/
+
+/-- `Convert(x, from, to)` as the library's generic code composes it: the `ToStandard` kernel of
+`from` unless `from` is the standard unit, then the `FromStandard` kernel of `to` unless `to` is the
+standard unit. -/
+def convExpr (k : UnitKernels) (frm to : Nat) (x : Expr) : Option Expr :=
+  match (if frm == k.standard then some x else (k.toStd[frm]?).map (Expr.subst fun _ => x)) with
+  | none => none
+  | some a => if to == k.standard then some a else (k.fromStd[to]?).map (Expr.subst fun _ => a)
+
+/-- `ConvertStatically<from, to>(x)`: both kernels are always applied (the standard unit's kernels
+are empty). -/
+def convStaticExpr (k : UnitKernels) (frm to : Nat) (x : Expr) : Option Expr :=
+  match (k.toStd[frm]?).map (Expr.subst fun _ => x) with
+  | none => none
+  | some a => (k.fromStd[to]?).map (Expr.subst fun _ => a)
+
+/-- All numeric outputs are `conv (var (off+i))` for `i < n`, in order. -/
+def outsAreConv (conv : Expr → Option Expr) (fm : Fm) (outs : List Expr) (off : Nat) : Bool :=
+  allIdx outs fun i ex => conv (.var (off + i) fm) == some ex
+
+/-- The shape of an entry point of Unit.hpp, read off its kind, enumerator arguments and outputs. -/
+inductive UnitShape where
+  | copy (f t : Nat) (outs : List Expr) (n : Nat)
+  | inplace (f t : Nat) (outs : List Expr) (n : Nat)
+  | static (f t : Nat) (outs : List Expr) (n : Nat)
+  | kernelTo (u : Nat) (o : Expr)
+  | kernelFrom (u : Nat) (o : Expr)
+  | bad
+
+def Entry.unitShape (e : Entry) : UnitShape :=
+  match e.kind, e.enumArgs, e.numOuts, e.argSizes with
+  | .convertCopy, [(_, f), (_, t)], some outs, n :: _ => .copy f t outs n
+  | .convertInplace, [(_, f), (_, t)], some outs, n :: _ => .inplace f t outs n
+  | .convertStatic, [(_, f), (_, t)], some outs, n :: _ => .static f t outs n
+  | .mapKernelTo, [(_, u)], some [o], _ => .kernelTo u o
+  | .mapKernelFrom, [(_, u)], some [o], _ => .kernelFrom u o
+  | .staticKernelTo, [(_, u)], some [o], _ => .kernelTo u o
+  | .staticKernelFrom, [(_, u)], some [o], _ => .kernelFrom u o
+  | _, _, _, _ => .bad
+
+/-- C02 for the entry points of Unit.hpp (one unit type, kernel table `k`). -/
+def checkUnitEntry (k : UnitKernels) (e : Entry) : Bool :=
+  match e.unitShape with
+  | .copy f t outs n =>
+    outs.length == 2 * n && outsAreConv (convExpr k f t) e.fm (outs.take n) 0 &&
+      allIdx (outs.drop n) (fun i ex => isVar i ex)
+  | .inplace f t outs n => outs.length == n && outsAreConv (convExpr k f t) e.fm outs 0
+  | .static f t outs n =>
+    outs.length == 2 * n && outsAreConv (convStaticExpr k f t) e.fm (outs.take n) 0 &&
+      allIdx (outs.drop n) (fun i ex => isVar i ex)
+  | .kernelTo u o => k.toStd[u]? == some o
+  | .kernelFrom u o => k.fromStd[u]? == some o
+  | .bad => false
+
+/-- The scalar `Convert` over all ordered pairs (compact rows: from, to, result, argument after). -/
+def checkConvertPair (k : UnitKernels) (fm : Fm) (row : Nat × Nat × Expr × Expr) : Bool :=
+  convExpr k row.1 row.2.1 (.var 0 fm) == some row.2.2.1 && isVar 0 row.2.2.2
+
+/-- The numeric parts of a traced string, in order. -/
+def strNums : List StrPart → List Expr
+  | [] => []
+  | .num e :: r => e :: strNums r
+  | .text _ :: r => strNums r
+
+def Entry.strOut (e : Entry) : Option (List StrPart) :=
+  match e.tree with
+  | .leaf [.str parts] => some parts
+  | _ => none
+
+/-- The shape of a per-class entry point that takes a unit: which scalar conversion (`frm → to`,
+run-time or compile-time form) must have been applied to which list of numbers. -/
+inductive ClassUnitShape where
+  | noUnit
+  | conv (runtime : Bool) (frm to : Nat) (k : UnitKernels) (nums : List Expr) (comps : Nat)
+  | bad
+
+def Entry.classUnitShape (classes : List ClassInfo) (kof : Nat → Option UnitKernels) (e : Entry) :
+    ClassUnitShape :=
+  match e.enumArgs with
+  | [] => .noUnit
+  | [(t, u)] =>
+    (match kof t, classes[e.cls - 1]? with
+     | some k, some ci =>
+       if ci.unitEnum == t && e.cls != 0 then
+         (match e.mem, e.kind, e.numOuts, e.strOut with
+          | .print, _, _, some parts => .conv true k.standard u k (strNums parts) ci.comps
+          | .json, _, _, some parts => .conv true k.standard u k (strNums parts) ci.comps
+          | .xml, _, _, some parts => .conv true k.standard u k (strNums parts) ci.comps
+          | .yaml, _, _, some parts => .conv true k.standard u k (strNums parts) ci.comps
+          | .valueUnit, _, some outs, _ => .conv true k.standard u k outs ci.comps
+          | .staticValue, _, some outs, _ => .conv false k.standard u k outs ci.comps
+          | .create, _, some outs, _ => .conv false u k.standard k outs ci.comps
+          | .other, .ctor, some outs, _ => .conv true u k.standard k outs ci.comps
+          | _, _, _, _ => .bad)
+       else .bad
+     | _, _ => .bad)
+  | _ => .bad
+
+/-- C02 for the per-class entry points that take a unit: construction in a unit, value in a unit
+(run-time and compile-time), compile-time creation, and the string forms in a unit all apply the
+scalar conversion of that unit to each component, in slot order. `kof` looks up the kernel table of
+the class's unit type. -/
+def checkClassUnit (classes : List ClassInfo) (kof : Nat → Option UnitKernels) (e : Entry) : Bool :=
+  match e.classUnitShape classes kof with
+  | .noUnit => true
+  | .conv rt f t k nums n =>
+    nums.length == n &&
+      outsAreConv (if rt then convExpr k f t else convStaticExpr k f t) e.fm nums 0
+  | .bad => false
+
 /-- No entry point reads a default-initialised (indeterminate) number. -/
 def checkNoUninit (e : Entry) : Bool := !e.tree.readsUninit
 
